@@ -221,10 +221,15 @@ class Wallet:
         return False
 
     async def unlock(self, password):
+        unlocked = []
         for account in self.accounts:
             if account.encrypted:
                 if not account.decrypt(password):
+                    # wrong password: accounts without secrets accept any password, lock them again
+                    for account in unlocked:
+                        account.encrypt(password)
                     return False
+                unlocked.append(account)
                 await account.deterministic_channel_keys.ensure_cache_primed()
         self.encryption_password = password
         return True
